@@ -12,7 +12,9 @@
    gle a b := ggt a b = false.  The order premises say that > on gradients is a
    strict weak order (true for binary64 off NaN). *)
 Require Import Base.Prelude C05.Sweep C05.Tree C05.ProofsTreeBase C05.ProofsTreeRot
-        C05.ProofsTreeInv C05.ProofsTreeFix C05.TreeBounded.
+        C05.ProofsTreeInv C05.ProofsTreeFix C05.ProofsTreeIns C05.ProofsTreeQry C05.ProofsTreeStruct
+        C05.ProofsTreeDel C05.TreeBounded.
+Require Import Permutation.
 Open Scope Z_scope.
 
 (* (T1) _left_rotate at any node x of a well-formed tree (it must have a right child,
@@ -70,6 +72,113 @@ Proof.
   exact (ifix_ok ggt nmin smallest Ha Ht fuel h root l z h' root' (conj HG (conj Hz Hb)) Hf).
 Qed.
 Print Assumptions C05_tree_insert_fixup_preserves.
+
+(* (T5) _insert_into_tree refines the abstract insert.  tabs h l = the (key, payload)
+   pairs along the in-order id sequence l (the abstraction function); KSorted = the
+   keys along l are strictly increasing (binary-search-tree order).  For ANY fuel: if
+   the model returns a tree (no out-of-bounds guard, fuel not exhausted), then the new
+   tree is well formed (links, parent pointers, distinct ids, EVERY cached maximum
+   valid — the upward propagation loop and the fix-up included), its in-order
+   sequence is the old one with the new row at the sorted position, its abstraction
+   is the old abstraction with (k, v) inserted there — a permutation of what
+   st_insert of Sweep.v returns —, NIL and the root are BLACK. *)
+Theorem C05_tree_insert_refines :
+  forall (K G N : Type) (klt : K -> K -> bool) (ggt : G -> G -> bool) (nmin : N -> G) (smallest : G),
+    (forall a b, ggt a b = true -> ggt b a = false) ->
+    (forall a b c, gle ggt a b -> gle ggt b c -> gle ggt a c) ->
+    (forall a b c, klt a b = true -> klt b c = true -> klt a c = true) ->
+    forall fuel (t : @tree K G N) id k v t' l,
+      Good ggt nmin smallest (th t) (troot t) l -> KSorted klt (th t) l -> l <> [] ->
+      hred (th t) NIL = false ->
+      id <> NIL -> ~ In id l ->
+      has_key klt k (tabs (th t) l) = false ->
+      gle ggt smallest (nmin v) ->
+      t_insert klt ggt nmin smallest fuel t id k v = Some t' ->
+      exists l1 l2, l = l1 ++ l2 /\
+        Good ggt nmin smallest (th t') (troot t') (l1 ++ id :: l2) /\
+        KSorted klt (th t') (l1 ++ id :: l2) /\
+        tabs (th t') (l1 ++ id :: l2) = tabs (th t) l1 ++ (k, v) :: tabs (th t) l2 /\
+        st_insert klt k v (tabs (th t) l) = inr ((k, v) :: tabs (th t) l) /\
+        Permutation (tabs (th t') (l1 ++ id :: l2)) ((k, v) :: tabs (th t) l) /\
+        hred (th t') NIL = false /\ hred (th t') (troot t') = false.
+Proof.
+  intros K G N klt ggt nmin smallest H1 H2 H3 fuel t id k v t' l.
+  exact (t_insert_refines klt ggt nmin smallest H1 H2 H3 fuel t id k v t' l).
+Qed.
+Print Assumptions C05_tree_insert_refines.
+
+(* (T6) _max_grad_in_status_struct / _find_max_value_within_key on a well-formed,
+   key-sorted, non-empty tree, for ANY fuel: if the model returns, it returns a
+   maximum m (never the "current dist too large" error) and "m <= g" (not m > g) is
+   exactly the abstract two-phase decision visible_q of Sweep.v on the abstraction.
+   Premises: SMALLEST_GRAD <= g; < on keys is a strict weak order; and the
+   phase-1 shortcut premise (the code consults cached maxima only on the left of the
+   search path): a nearer node whose min3 exceeds g also has its interpolated
+   gradient exceed g. *)
+Theorem C05_tree_query_refines :
+  forall (A K G N : Type) (klt : K -> K -> bool) (ggt : G -> G -> bool) (nmin : N -> G)
+         (ncontrib : N -> A -> option G) (smallest : G),
+    (forall a b, ggt a b = true -> ggt b a = false) ->
+    (forall a b c, gle ggt a b -> gle ggt b c -> gle ggt a c) ->
+    (forall a b c, klt a b = true -> klt b c = true -> klt a c = true) ->
+    (forall a, klt a a = false) ->
+    (forall a b c, klt a c = true -> klt a b = true \/ klt b c = true) ->
+    forall fuel (t : @tree K G N) l k a g r,
+      Good ggt nmin smallest (th t) (troot t) l -> KSorted klt (th t) l -> l <> [] ->
+      gle ggt smallest g ->
+      (forall j, In j l -> klt (hkey (th t) j) k = true -> ggt (hmin nmin (th t) j) g = true ->
+                 hit ggt ncontrib g a (hval (th t) j) = true) ->
+      t_query klt ggt nmin ncontrib smallest fuel t k a g = Some r ->
+      exists m, r = QVal m /\
+        negb (ggt m g) = visible_q klt ggt nmin ncontrib (tabs (th t) l) k a g.
+Proof.
+  intros A K G N klt ggt nmin ncontrib smallest H1 H2 H3 H4 H5 fuel t l k a g r.
+  exact (t_query_ok klt ggt nmin ncontrib smallest H1 H2 H3 H4 H5 fuel t l k a g r).
+Qed.
+Print Assumptions C05_tree_query_refines.
+
+(* (T7) the whole _rb_delete_fixup loop (four cases on each side, any number of
+   iterations, any fuel), structure only: SGood h root l = the links and parent
+   pointers encode a binary tree with distinct ids whose in-order sequence is l.
+   If the loop returns, the in-order sequence, all keys and payloads are unchanged
+   and NIL is still BLACK. *)
+Theorem C05_tree_delete_fixup_preserves :
+  forall (K G N : Type) (ggt : G -> G -> bool) (nmin : N -> G)
+         fuel (h : @heap K G N) root l x h' root',
+    SGood h root l -> l <> [] -> In x l -> hred h NIL = false ->
+    dfix ggt nmin fuel h root x = Some (h', root') ->
+    SGood h' root' l /\ (forall j, hkey h' j = hkey h j /\ hval h' j = hval h j) /\ hred h' NIL = false.
+Proof.
+  intros K G N ggt nmin fuel h root l x h' root' HG Hne Hx HB Hf.
+  exact (dfix_ok ggt nmin fuel h root l x h' root' (conj HG (conj Hne (conj Hx HB))) Hf).
+Qed.
+Print Assumptions C05_tree_delete_fixup_preserves.
+
+(* (T8) _delete_from_tree refines the abstract del_key of Sweep.v (links, in-order
+   sequence, keys, payloads — the successor copy included; NOT the cached maxima,
+   see C05_tree_delete_max_not_preserved).  On a well-formed key-sorted tree, for ANY
+   fuel: if the model returns, then either it reports "node not found" and the abstract
+   del_key finds no such key, or it returns a well-formed key-sorted tree whose
+   abstraction is exactly what del_key returns, frees a row d that was in the tree and
+   is not any more (the id sequences differ by d), and NIL is still BLACK.  The
+   "successor not found" error never occurs. *)
+Theorem C05_tree_delete_refines :
+  forall (K G N : Type) (klt : K -> K -> bool) (ggt geq : G -> G -> bool) (nmin : N -> G),
+    (forall a b c, klt a b = true -> klt b c = true -> klt a c = true) ->
+    (forall a b c, klt a c = true -> klt a b = true \/ klt b c = true) ->
+    forall fuel (t : @tree K G N) key res l,
+      SGood (th t) (troot t) l -> KSorted klt (th t) l -> hred (th t) NIL = false ->
+      t_delete klt ggt geq nmin fuel t key = Some res ->
+      (res = DNotFound /\ del_key klt key (tabs (th t) l) = None) \/
+      (exists h' root' d l', res = DOk (mkTree h' root') d /\
+         SGood h' root' l' /\ KSorted klt h' l' /\
+         del_key klt key (tabs (th t) l) = Some (tabs h' l') /\
+         Permutation l (d :: l') /\ hred h' NIL = false).
+Proof.
+  intros K G N klt ggt geq nmin H1 H2 fuel t key res l.
+  exact (t_delete_ok ggt nmin geq klt H1 H2 fuel t key res l).
+Qed.
+Print Assumptions C05_tree_delete_refines.
 
 (* (T4) BOUNDED (vm_compute): on the exact integer instance (keys, gradients in Z, a
    node's payload = its constant gradient, SMALLEST_GRAD = -100, 64 rows), for EVERY
@@ -133,6 +242,33 @@ Proof.
   split.
   - intros a b H. unfold zgt' in *. lia.
   - intros a b c H1 H2. unfold gle, zgt' in *. lia.
+Qed.
+
+(* ---- REFUTED for the code as written: "_delete_from_tree re-establishes cached
+   maximum = subtree maximum".  After insert 6 (gradient 1), 1 (0), 5 (0), 3 (0),
+   2 (1), delete 2, delete 5 the root (row 3, key 1) caches the maximum 0 although
+   its right child (row 4, key 6) has min3 = 1: the two-sided invariant Good fails
+   (the skip conditions of the loop after the successor copy, viewshed.py:665-697,
+   leave the ancestors' maxima too LOW).  The query still answers correctly here,
+   because phase 2 walks every nearer node; only the phase-1 shortcut is lost. *)
+Definition stale_state : @cstate Z Z Z :=
+  fold_left (fun s o => snd (zc_step s o)) [CI 6 1; CI 1 0; CI 5 0; CI 3 0; CI 2 1; CD 2; CD 5] zc_init.
+
+Example C05_tree_delete_max_not_preserved :
+  let h := th (c_tree stale_state) in
+  let root := troot (c_tree stale_state) in
+  root = 3 /\ c_abs stale_state = [(0, zsmall); (1, 0); (3, 0); (6, 1)] /\
+  hmax h 3 = 0 /\ hright h 3 = 4 /\ hval h 4 = 1 /\
+  ~ Good zgt' (fun n : Z => n) zsmall h root [0; 3; 5; 4] /\
+  refines_run zc_init [] [ZI 6 1; ZI 1 0; ZI 5 0; ZI 3 0; ZI 2 1; ZD 2] = true.
+Proof.
+  cbv zeta. split; [vm_compute; reflexivity|]. split; [vm_compute; reflexivity|].
+  split; [vm_compute; reflexivity|]. split; [vm_compute; reflexivity|]. split; [vm_compute; reflexivity|].
+  split; [|vm_compute; reflexivity].
+  intros HG.
+  assert (H4 : In 4 [0; 3; 5; 4]) by (simpl; tauto).
+  pose proof (Good_root_upper zgt' (fun n : Z => n) zsmall _ _ _ 4 HG H4) as X.
+  vm_compute in X. discriminate.
 Qed.
 
 (* the bounded run is not trivially true: it inspects states with five live nodes *)
